@@ -45,7 +45,7 @@ struct MemWorld : World {
                 uint32_t side = r.below(4) <= flush_bias ? (r.below(2) ? BACK : FRONT) : MIDDLE;
                 s.a[2 * k] = side; s.a[2 * k + 1] = r.below(3) == 0 ? 0 : r.below(64);
             }
-            s.a[A_POISON] = r.below(30); s.a[A_FAULT] = (r.below(4) == 0 ? 1 : 0) | (r.below(4) << 4); s.a[A_DATA] = r.below(1000);
+            s.a[A_POISON] = r.below(30); s.a[A_FAULT] = (r.below(4) == 0 ? 1 : 0) | (r.below(4) << 4) | (r.below(4) == 0 ? 0x40 : 0); s.a[A_DATA] = r.below(1000);
             s.a[A_P1] = r.u32() >> 4; s.a[A_P2] = r.u32() >> 4; s.a[A_P3] = r.u32() >> 4;
             p.steps.push_back(s);
         }
@@ -139,13 +139,14 @@ struct MemWorld : World {
                 { char b[48]; snprintf(b, sizeof b, "fault/poison-%u", pat0); cnt->bump(b); }
                 if (armed) { cnt->bump("fault/alloc-failure-armed"); }
                 { char b[48]; snprintf(b, sizeof b, "fault/stack-skew-%02u", st.a[A_FAULT] & 0x30); cnt->bump(b); }
+                if ((op.flags & F_ANYALIGN) && (st.a[A_FAULT] & 0x40)) cnt->bump("fault/byte-granular-misalignment (address not a multiple of sizeof(T))");
                 if (o0.allocs) cnt->bump("fault/alloc-attempted-in-window", o0.allocs);
                 if (op.flags & F_BADINDEX) { cnt->bump("fault/bad-index-delivered"); if (o0.kind == 2) cnt->bump("probe/bad-index-exception-observed"); }
                 if (op.flags & F_UNJUDGED) cnt->bump("unjudged-probe-steps");
                 // abstract signature: (op, placement class per operand, misalignment class, fault set)
                 uint64_t sg = mix2(st.op % ops.size(), 0x51);
                 for (int i = 0; i < nopd && i < 4; ++i) sg = mix2(sg, (st.a[2 * i] % 3) * 64 + ((op.flags & F_ANYALIGN) ? c.backoff(i) : 0));
-                sg = mix2(sg, (armed ? 1 : 0) | (st.a[A_FAULT] & 0x30));
+                sg = mix2(sg, (armed ? 1 : 0) | (st.a[A_FAULT] & 0x70));
                 cnt->sig_all.insert(sg);
                 bool nontrivial = flush || misal || armed || (op.flags & F_BADINDEX);
                 if (nontrivial) cnt->sig_nontrivial.insert(sg);
